@@ -245,7 +245,8 @@ pub fn run_program(p: &Program) -> TOutcome {
     let generator = Arc::new(UuidGenerator::new(Uuid::from_u128(p.knobs.namespace)));
     let total_ops: usize = p.threads.iter().map(|t| t.len()).sum();
     let pre_specs: Vec<OrderSpec> = p.preload.clone();
-    let budget = 64 * (max_visits(&pre_specs) + 16) * (total_ops as u64 + 2) + 4000;
+    let budget = (64 * (max_visits(&pre_specs).min(1 << 30) + 16) * (total_ops as u64 + 2) + 4000)
+        .min(2_000_000);
     let est_steps = 30 * total_ops as u64 + 10;
     let sched = Sched::new(
         n,
@@ -574,7 +575,9 @@ pub fn run_program(p: &Program) -> TOutcome {
 
     // ---- phase 4: drain, phase 5: final read (C08)
     let before_drain = listing.clone();
-    setup2.begin_op(64 * (max_visits(&before_drain) + before_drain.len() as u64 + 8));
+    setup2.begin_op(
+        (64 * (max_visits(&before_drain).min(1 << 30) + before_drain.len() as u64 + 8)).min(300_000),
+    );
     let taker = IdS {
         ulid: false,
         v: 0xd4a1,
